@@ -1346,7 +1346,7 @@ func decodeDataPayloadToMACCommands(uplink bool, payloads []Payload) ([]Payload,
 			plLen = s
 		}
 
-		if len(dataPL.Bytes[i:]) < plLen+1 {
+		if len(dataPL.Bytes[i:])-1 < plLen {
 			return nil, errors.New("lorawan: not enough remaining bytes")
 		}
 
